@@ -11,6 +11,10 @@ def rapid(name, pkg, test, qshards, qchecks, tshards, tchecks, **kw):
     return d
 
 
+def fuzz(name, pkg, test, secs):
+    return {"name": name, "pkg": pkg, "test": test, "kind": "fuzz", "fuzztime": secs, "tiers": ["thorough"], "solo": True}
+
+
 def plain(name, pkg, test, **kw):
     d = {"name": name, "pkg": pkg, "test": test, "kind": "plain"}
     d.update(kw)
@@ -389,7 +393,8 @@ PROPS["C14"] = {
     "legs": [plain("exh", "pmdiff", "TestC14Exhaustive", solo=True),
              rapid("rand", "pmdiff", "TestC14Rand", 4, 2500, 16, 25000),
              rapid("git", "pmdiff", "TestC14Git", 2, 1500, 8, 15000),
-             plain("gnupatch", "pmdiff", "TestC14GnuPatch", shards={"quick": 1, "thorough": 4})],
+             plain("gnupatch", "pmdiff", "TestC14GnuPatch", shards={"quick": 1, "thorough": 4}),
+             fuzz("fuzz", "pmdiff", "FuzzUnifiedRoundTrip", 90)],
     "rule": "diffs are New(L,R) (n=-1) or New(L,R).AddContext(n).Unify() (n in 0..3). leg exh: every pair over {a,b,c} "
             "with lengths <=4 (quick) / <=5 (thorough) x n in {-1,0,1,2,3}, alternately without and with a FileInfo; leg "
             "rand: pairs derived from a common base by line mutations over 2-5 lines drawn from a hostile alphabet "
@@ -419,7 +424,8 @@ PROPS["C15"] = {
     "legs": [plain("exh", "pshell", "TestC15Exhaustive", solo=True),
              rapid("lists", "pshell", "TestC15Lists", 4, 3000, 16, 30000),
              plain("pool", "pshell", "TestC15Pool"),
-             plain("shells", "pshell", "TestC15Shells", solo=True)],
+             plain("shells", "pshell", "TestC15Shells", solo=True),
+             fuzz("fuzz", "pshell", "FuzzQuoteSplit", 60)],
     "rule": "leg exh: every single byte 0x00-0xFF and every string of length <=3 (quick) / <=4 (thorough) over the 26 "
             "shell-significant bytes | & ; < > ( ) $ ` \\ \" ' SP TAB NL * ? [ # ~ = % { } ! ] plus 'a' and 0x80; leg "
             "lists: rapid lists of 0-5 strings of <=12 bytes over a weighted alphabet (metacharacters, quotes, backslash, "
@@ -440,7 +446,8 @@ PROPS["C15"] = {
 PROPS["C16"] = {
     "legs": [plain("exh", "pshell", "TestC16Exhaustive", solo=True),
              rapid("rand", "pshell", "TestC16Rand", 4, 2500, 16, 25000),
-             plain("shells", "pshell", "TestC16Shells", solo=True)],
+             plain("shells", "pshell", "TestC16Shells", solo=True),
+             fuzz("fuzz", "pshell", "FuzzSplit", 60)],
     "rule": "leg exh: every string of length <=6 (quick) / <=7 (thorough) over one representative per tokenizer class "
             "{a, SP, NL, backslash, ', \"} and of length <=4 / <=5 over two representatives per class (0xFF and TAB added); "
             "leg rand: rapid inputs of <=40 bytes weighted towards the class representatives, plus a drawn reader "
